@@ -53,6 +53,9 @@ func newSmt(eng *Engine, intMode bool) *Smt {
 		"(define-sort F64 () Int)",
 		fmt.Sprintf("(declare-datatypes ((Slice 0)) (((mkslice (sbase Ref) (soff %s) (slen %s) (scap %s)))))", idx, idx, idx),
 		"(declare-datatypes ((Iface 0)) (((mkiface (itag Int) (idata Int)))))",
+		"(define-fun-rec rootloc ((r Ref)) Int (ite ((_ is loc) r) (locid r) (ite ((_ is fld) r) (rootloc (fbase r)) (ite ((_ is elem) r) (rootloc (ebase r)) (- 1)))))",
+		"(declare-const ac0 Int)",
+		"(assert (>= ac0 0))",
 		fmt.Sprintf("(declare-fun strlen (Str) %s)", idx),
 		fmt.Sprintf("(declare-fun strat (Str %s) %s)", idx, s.intSortW(8)),
 		"(declare-fun str_concat (Str Str) Str)",
